@@ -27,6 +27,7 @@ structure Tables where
   attachMdDecode : List Exc
   attachGuard : List Exc
   attachConvert : List Exc
+  resolveConvert : List Exc
   firstRead : List Exc
   firstReadDrains : Bool
   firstDrainSkips : List Exc
@@ -42,7 +43,7 @@ structure Tables where
 def Tables.gen : Tables :=
   { supers := Gen.C05.supers, serveLoop := Gen.C05.serveLoop, readRequestTry := Gen.C05.readRequestTry,
     versionGate := Gen.C05.versionGate, validation := Gen.C05.validation, methodCall := Gen.C05.methodCall,
-    attachMdDecode := Gen.C05.attachMdDecode, attachGuard := Gen.C05.attachGuard, attachConvert := Gen.C05.attachConvert, firstRead := Gen.C05.firstRead,
+    attachMdDecode := Gen.C05.attachMdDecode, attachGuard := Gen.C05.attachGuard, attachConvert := Gen.C05.attachConvert, resolveConvert := Gen.C05.resolveConvert, firstRead := Gen.C05.firstRead,
     firstReadDrains := Gen.C05.firstReadDrainsOnIpcError, firstDrainSkips := Gen.C05.firstReadDrainSkips,
     firstDrainEnds := Gen.C05.firstReadDrainEnds, traceDecode := Gen.C05.traceDecode,
     methodDecode := Gen.C05.methodDecode, pointerGuard := Gen.C05.pointerGuard, asPyGuard := Gen.C05.asPyGuard, releaseGuard := Gen.C05.releaseGuard,
@@ -96,7 +97,9 @@ structure Req where
   shmOpen : Step                  -- `SharedMemory(name=…, create=False, size=…)` for the advertised name (the OS)
   allocInit : Step                -- `ShmAllocator(buf, size)` on the mapping: header unpack (struct.error when the mapping is
                                   --   smaller than the header) and magic / version / size checks (ValueError)
-  resolve : Step                  -- `resolve_shm_batch` against the segment (int(), bounds, region content)
+  resolve : Step                  -- `resolve_shm_batch` up to the read: length key present, `int()`, bounds (ValueError)
+  deser : Step                    -- `_deserialize_from_shm`: the region read as an IPC stream — StopIteration when it holds no
+                                  --   batch, OSError / ArrowInvalid when it is not IPC framing, a batch otherwise
   release : Step                  -- `release_shm()` = `shm.free(offset)` in the `finally` (the allocator may not know the offset)
   -- the batch kwargs are read from
   ncols : Nat
@@ -179,9 +182,19 @@ def body (T : Tables) (rq : Req) : Ex Unit :=
     | .raises e => if caught T T.asPyGuard e then .raises .RpcError else .raises e
     | _ => .ok ()
 
+/-- `resolve_shm_batch`: the pointer checks, then the read of the region; read failures of the classes in `resolveConvert`
+are re-raised as ValueError, anything else propagates as it is -/
+def resolveStep (T : Tables) (rq : Req) : Step :=
+  match rq.resolve with
+  | .ok =>
+    match rq.deser with
+    | .raises e => if caught T T.resolveConvert e then .raises .ValueError else .raises e
+    | _ => .ok
+  | s => s
+
 /-- `resolve_shm_batch` (when there is a segment and the batch is a pointer), the body, and `finally: release_shm()` -/
 def resolveBody (T : Tables) (rq : Req) (hasSeg : Bool) : Ex Unit :=
-  match (if hasSeg && rq.isPointer then rq.resolve else Step.ok) with
+  match (if hasSeg && rq.isPointer then resolveStep T rq else Step.ok) with
   | .raises e => if caught T T.pointerGuard e then .raises .RpcError else .raises e
   | .blocks => .blocks
   | .ok =>
